@@ -58,6 +58,9 @@ func init() {
 	mutant(&Mutant{Name: "c04-custom-property-collapsed", Property: "C04", File: "css/css.go",
 		Old: "\t\t\tvalue := parse.TrimWhitespace(c.p.Values()[0].Data)\n", New: "\t\t\tvalue := parse.TrimWhitespace(parse.ReplaceMultipleWhitespace(c.p.Values()[0].Data))\n",
 		Rule: "R04.4", Construct: "confined to comment text"})
+	mutant(&Mutant{Name: "c09-url-quoting-decided-before-datauri", Property: "C09", File: "css/css.go",
+		Old: "\t\t\t\tif 4 < len(uri) && parse.EqualFold(uri[:5], dataSchemeBytes) {\n\t\t\t\t\turi = minify.DataURI(c.m, uri)\n\t\t\t\t}\n\t\t\t\tif css.IsURLUnquoted(uri) {", New: "\t\t\t\tunquoted := css.IsURLUnquoted(uri)\n\t\t\t\tif 4 < len(uri) && parse.EqualFold(uri[:5], dataSchemeBytes) {\n\t\t\t\t\turi = minify.DataURI(c.m, uri)\n\t\t\t\t}\n\t\t\t\tif unquoted {",
+		Rule: "R09.8", Construct: "re-examined after"})
 	mutant(&Mutant{Name: "c09-dot-after-number-shortcut", Property: "C09", File: "js/js.go",
 		Old: "\t\tif js.OpMember <= prec || isOptionalGroup(expr.X) {\n\t\t\tm.minifyExpr(expr.X, js.OpMember)", New: "\t\tif lit, ok := expr.X.(*js.LiteralExpr); ok && lit.TokenType == js.DecimalToken {\n\t\t\tm.write(lit.Data)\n\t\t\tm.write(dotBytes)\n\t\t\tm.write(expr.Y.Data)\n\t\t\tbreak\n\t\t}\n\t\tif js.OpMember <= prec || isOptionalGroup(expr.X) {\n\t\t\tm.minifyExpr(expr.X, js.OpMember)",
 		Rule: "R09.4", Construct: "property write"})
@@ -160,6 +163,8 @@ func runC04(c *Ctx) {
 		})
 	}
 	c.R.Floor(r7, "ParseInt calls", n7, 1)
+	// positions remembered while rewriting a value list (background layers) stay valid: same rule as R10.5, css only
+	c.alsoUnder(map[string]string{"R10.5": "R04.8"}, func(construct string) bool { return strings.HasPrefix(construct, "css.") || strings.HasPrefix(construct, "floor/") }, func() { c.r105() })
 }
 
 func runC04own(c *Ctx) {
@@ -370,6 +375,9 @@ func runC09(c *Ctx) {
 		c.alsoUnder(map[string]string{"R02.3": "R09.5"}, nil, func() { c.r023(pk) })
 		c.alsoUnder(map[string]string{"R01.16": "R09.6"}, nil, func() { c.r0116(pk) })
 	}
+	// a JSON number without its leading zero (`.5`) is not JSON
+	c.alsoUnder(map[string]string{"R07.3": "R09.7"}, nil, func() { runC07own(c) })
+	c.r098()
 }
 
 func runC09own(c *Ctx) {
@@ -533,4 +541,91 @@ func (c *Ctx) r094(pk *packages.Package) {
 			"the property name can be written without the test that separates it from a preceding integer: a numeric literal followed by `.name` is printed with the wrong number of dots (`1.toString()` / `1n..a`), which is not valid JavaScript: "+pathStr(c, g, p))
 	}
 	c.R.Floor(rule, "property writes in the DotExpr case", n, 1)
+}
+
+// R09.8: the quoting of a url() is decided on the bytes that are written.
+func (c *Ctx) r098() {
+	const rule = "R09.8"
+	c.R.Rule(rule, "in cssMinifier.minifyTokens a url() is written without quotes only if css.IsURLUnquoted holds for the bytes that are written: from every assignment to the uri variable that can follow an evaluation of css.IsURLUnquoted(uri) (the data-URI rewrite) no path reaches the unquoted write without evaluating css.IsURLUnquoted(uri) again. A decision taken before minify.DataURI re-encoded the payload lets `(`, `)` or quotes into an unquoted url(): `url(data:,alert('hi'))` is a bad-url token and the rest of the declaration is scrambled")
+	pk := c.pkg(rule, "css")
+	if pk == nil {
+		return
+	}
+	info := pk.TypesInfo
+	fd := c.fn(rule, pk, "cssMinifier.minifyTokens")
+	if fd == nil {
+		return
+	}
+	g := c.graph(pk, fd)
+	isURLUnq := load.ParseMod + "/css.IsURLUnquoted"
+	var uriName string
+	evals := func(y *flow.Node) bool {
+		a := y.Ast()
+		if a == nil || y.Kind == flow.KRange || y.Kind == flow.KSelect {
+			return false
+		}
+		var root ast.Node = a
+		if y.Kind == flow.KCond {
+			root = y.Expr
+		}
+		found := false
+		ast.Inspect(root, func(q ast.Node) bool {
+			if call := isCall(info, q, isURLUnq); call != nil {
+				found = true
+				if uriName == "" {
+					uriName = str(call.Args[0])
+				}
+			}
+			return true
+		})
+		return found
+	}
+	var evalNodes []*flow.Node
+	for _, y := range g.Nodes {
+		if evals(y) {
+			evalNodes = append(evalNodes, y)
+		}
+	}
+	if len(evalNodes) == 0 || uriName == "" {
+		c.R.Unres(rule, "css.cssMinifier.minifyTokens/url quoting", c.pos(fd), "no call of css.IsURLUnquoted found")
+		return
+	}
+	// the unquoted write: values[i].Data = append(append(urlBytes, uri...), ')') — an assignment that uses uri and urlBytes but no delimiter variable
+	var writes []*flow.Node
+	for _, y := range g.Nodes {
+		as, ok := y.Stmt.(*ast.AssignStmt)
+		if !ok || y.Kind != flow.KStmt || len(as.Rhs) != 1 {
+			continue
+		}
+		sx := nospace(str(as.Rhs[0]))
+		if strings.Contains(sx, "urlBytes") && strings.Contains(sx, uriName+"...") && !strings.Contains(sx, "delim") {
+			writes = append(writes, y)
+		}
+	}
+	if len(writes) == 0 {
+		c.R.Unres(rule, "css.cssMinifier.minifyTokens/url quoting", c.pos(fd), "the unquoted write of the url was not found")
+		return
+	}
+	n := 0
+	for _, a := range g.Nodes {
+		if _, ok := assignsTo(a, func(l ast.Expr) bool { return str(l) == uriName }); !ok {
+			continue
+		}
+		// only assignments that can follow an evaluation
+		after := false
+		for _, e := range evalNodes {
+			if e != a && g.Path(flow.Search{From: []*flow.Node{e}, Goal: func(q *flow.Node) bool { return q == a }}) != nil {
+				after = true
+			}
+		}
+		if !after {
+			continue
+		}
+		for _, w := range writes {
+			n++
+			p := g.Path(flow.Search{From: []*flow.Node{a}, Goal: func(q *flow.Node) bool { return q == w }, Avoid: func(q *flow.Node) bool { return q != a && evals(q) }})
+			c.R.Check(p == nil, rule, fmt.Sprintf("css.cssMinifier.minifyTokens/%s re-examined after %s", uriName, str0(a.Stmt)), c.pos(a.Stmt), "IsURLUnquoted evaluated again before the unquoted write", "the uri is rewritten after the quoting decision and written without quotes on a path that never re-evaluates css.IsURLUnquoted("+uriName+"): "+pathStr(c, g, p))
+		}
+	}
+	c.R.Exists(rule, "css.cssMinifier.minifyTokens/url quoting sites", "-", fmt.Sprintf("%d (rewrite, unquoted write) pairs", n))
 }
